@@ -1,7 +1,7 @@
 (* C19 -- property theorems only.  Proofs live in C19/Proofs*.v. *)
 From Coq Require Import NArith List.
 From DV Require Import Base.Outcome Base.Bytes Base.Names Base.PName C19.Gen C19.Model
-  C19.ModelCmp C19.ProofsDec C19.ProofsOld C19.ProofsNew C19.ProofsAgree C19.ProofsCmp C19.ProofsCmpSound C19.ProofsCmpInv C19.ProofsRev C19.ModelEdns C19.ModelMsg C19.ProofsItems C19.ProofsEdns C19.ProofsCmpRev C19.ProofsCmpRegions C19.ProofsMsg C19.ProofsMsgIff C19.ProofsFlat C19.ProofsMsgWhole C01.Model C01.Model3 C05.OptModel.
+  C19.ModelCmp C19.ProofsDec C19.ProofsOld C19.ProofsNew C19.ProofsAgree C19.ProofsCmp C19.ProofsCmpSound C19.ProofsCmpInv C19.ProofsRev C19.ModelEdns C19.ModelMsg C19.ProofsItems C19.ProofsEdns C19.ProofsCmpRev C19.ProofsCmpRegions C19.ProofsMsg C19.ProofsMsgIff C19.ProofsFlat C19.ProofsMsgWhole C19.ProofsCmpPatch C01.Model C01.Model3 C05.OptModel.
 Import ListNotations.
 Local Open Scope N_scope.
 
@@ -325,3 +325,41 @@ Theorem C19_whole_message_iff : forall h c, length h = 12%nat -> wf_bytes c ->
   ((exists items off, mp_run (h ++ c) = Some (Ok (items, off, true))) <-> old_msg_ok (h ++ c)).
 Proof. exact whole_message_iff. Qed.
 Print Assumptions C19_whole_message_iff.
+
+(* Record building of the new MessageBuilder (owner name, fixed octets, two
+   RESERVED octets for the RDATA size, RDATA items, size written last): when the
+   size field is reserved, every compressor entry together with the two octets
+   behind it lies in front of it - the hypothesis of C19_patch_invariant, derived *)
+Theorem C19_record_reserve_disjoint : forall (h : bytes), length h = 12%nat ->
+  forall st c owner bs st1 fixed,
+  Inv st c -> valid_abs owner -> fixed <> [] ->
+  build_name st c (wire_abs owner) = Ok (bs, st1) ->
+  Dis st1 (len (c ++ bs ++ fixed)) 2.
+Proof. exact record_reserve_disjoint. Qed.
+Print Assumptions C19_record_reserve_disjoint.
+
+(* ... every later push keeps it so (a new entry starts at the end of the
+   contents) and returns the same octets and the same state whatever the
+   reserved octets hold *)
+Theorem C19_record_patch_invisible : forall st A X Y B w bs st', length X = length Y ->
+  Dis st (len A) (len X) ->
+  build_name st (A ++ X ++ B) w = Ok (bs, st') ->
+  build_name st (A ++ Y ++ B) w = Ok (bs, st') /\ Dis st' (len A) (len X).
+Proof. exact record_patch_invisible. Qed.
+Print Assumptions C19_record_patch_invisible.
+
+(* ... hence the record with the size patched in is octet for octet the message
+   built with the size octets in place from the start, its size field holds the
+   RDATA length, and every name in it - owner and RDATA - reads back *)
+Theorem C19_record_patched_sound : forall (h : bytes), length h = 12%nat ->
+  forall st c owner fixed stale rd m,
+  Inv st c -> wf_bytes c -> valid_abs owner -> wf_bytes fixed -> fixed <> [] -> length stale = 2%nat ->
+  Forall item_ok rd ->
+  build_record st c owner fixed stale rd = Ok m ->
+  exists hi lo,
+    build_items st c (IName owner :: IRaw fixed :: IRaw [hi; lo] :: rd) = Ok m /\
+    (exists bs B, m = c ++ bs ++ fixed ++ [hi; lo] ++ B /\ hi * 256 + lo = len B /\ hi < 256 /\ lo < 256) /\
+    wf_bytes m /\
+    items_read_back h m (len c) (IName owner :: IRaw fixed :: IRaw [hi; lo] :: rd).
+Proof. exact record_patched_sound. Qed.
+Print Assumptions C19_record_patched_sound.
